@@ -323,8 +323,6 @@ class P:
             c = s[self.i]
             if c == "\\":
                 return self.parse_escape()
-            if c.isspace() or (self.verbose and c == "#"):
-                self.err("white space or # inside a class (ambiguous in verbose mode)")
             if c == "[":
                 self.err("nested class / POSIX class not supported")
             if s.startswith("&&", self.i) or s.startswith("--", self.i) or s.startswith("~~", self.i):
@@ -332,6 +330,7 @@ class P:
             self.i += 1
             return ord(c)
         while True:
+            self.skip()     # verbose mode only: the regex crate skips white space and comments inside a class too
             if self.i >= len(s):
                 self.err("unterminated class")
             c = s[self.i]
@@ -349,8 +348,10 @@ class P:
             else:
                 lo = item()
             first = False
+            self.skip()
             if s[self.i] == "-" and s[self.i + 1] != "]":
                 self.i += 1
+                self.skip()
                 hi = item()
                 if hi < lo:
                     self.err("empty range in class")
